@@ -580,6 +580,58 @@ func main() {
 	fmt.Println("end")
 }
 `},
+	{ID: "compile/continue-in-tagless-switch", Key: keyContinueInSwitchTagless, Src: `package main
+
+import "fmt"
+
+func main() {
+	for i5 := 0; i5 < 1; i5++ {
+	}
+	c11 := 0
+	for c11 < 4 {
+		c11 = c11 + 1
+		switch {
+		default:
+			if "ego" >= "a" && int16(7) < int16(5) {
+				continue
+			}
+		}
+		c13 := 0
+		fmt.Printf("t4 %d\n", c13)
+	}
+}
+`},
+	{ID: "peephole/loadthis-constant-receiver", Key: "peephole:loadthis-constant-receiver", Src: `package main
+
+import "fmt"
+
+type weekday4 int
+
+const (
+	Mon weekday4 = iota
+	Tue
+	Wed
+)
+
+func (w weekday4) String() string {
+	switch w {
+	case Mon:
+		return "Monday"
+	case Tue:
+		return "Tuesday"
+	case Wed:
+		return "Wednesday"
+	default:
+		return "Unknown"
+	}
+}
+
+func main() {
+	fmt.Println(Mon.String() == "Monday")
+	day := Wed
+	fmt.Println(day.String() == "Wednesday")
+}
+`},
 	{ID: "constfold/negated-zero-float-constant", Key: keyNegZero, Src: `import "fmt"
 
 const Z = 0.0
